@@ -143,6 +143,9 @@ func runC13(c *Check, a *Analysis) {
 	}
 	for _, op := range p.mapOps("conns", "Conns") {
 		if op.Kind == "append" {
+			if isRemovalAppend(p, op.Instr) {
+				continue // append(s[:i], s[i+1:]...) shrinks the list
+			}
 			ok := fname(op.Fn) == "(*conns).Append"
 			c.Ob("R-GROW-GUARD", sc.key(op.Fn, "append(c.Conns)"), p.InstrPos(op.Instr), ok, ifs(!ok, "conns.Conns grows outside (*conns).Append, bypassing the limit guard at its call sites"))
 		}
@@ -426,7 +429,7 @@ func runC14(c *Check, a *Analysis) {
 		sources = append(sources, d.(ssa.Instruction))
 	}
 	for _, op := range p.mapOps("conns", "Conns") {
-		if op.Kind == "index" && op.Fn == gc {
+		if op.Kind == "index" && p.sameFn(op.Fn, gc) {
 			// only loads of elements (not stores into a slot)
 			if ia, ok := op.Instr.(*ssa.IndexAddr); ok && ia.Referrers() != nil {
 				for _, r := range *ia.Referrers() {
@@ -475,8 +478,8 @@ func runC14(c *Check, a *Analysis) {
 			default:
 				return
 			}
-			if fname(fn) == "(*Transport).run" {
-				return // housekeeping pings
+			if len(callsIn(fn, "(*Transport).getConn")) == 0 {
+				return // not a call form: housekeeping pings work on connections taken from the pool tables
 			}
 			nforms++
 			_, tr, okp := p.mustPass(fn, in, func(x ssa.Instruction) bool { return isCallTo(x, "checkPersistConnErr") })
@@ -645,7 +648,7 @@ func runC15(c *Check, a *Analysis) {
 			for _, tbl := range []string{"conns", "idleConns"} {
 				var rng ssa.Instruction
 				for _, op := range p.mapOps("Transport", tbl) {
-					if op.Kind == "range" && op.Fn == cl {
+					if op.Kind == "range" && p.sameFn(op.Fn, cl) {
 						rng = op.Instr
 					}
 				}
@@ -837,7 +840,7 @@ func ruleEnqueueOrClose(c *Check, a *Analysis, rule string) {
 			in := eq.(ssa.Instruction)
 			recvFresh := false
 			for _, o := range p.origins(eq.Common().Args[0]) {
-				if cc, ok := p.canon(o).(*ssa.Call); ok && calleeName(cc) == "newConnQueue" && cc.Parent() == fn {
+				if cc, ok := p.canon(o).(*ssa.Call); ok && calleeName(cc) == "newConnQueue" && cc.Parent() == eq.Parent() {
 					recvFresh = true
 				} else {
 					recvFresh = false
@@ -1363,4 +1366,27 @@ func ruleDrainLoops(c *Check, a *Analysis, rule string) {
 			c.Ob(rule, sc.key(cl, "drain loop runs for every non-empty idle queue"), p.InstrPos(dq), !skipped, ifs(skipped, "Transport.Close dequeues and closes parked connections only under a test that excludes some non-empty queue: those connections stay open"))
 		}
 	}
+}
+
+// isRemovalAppend recognises the element-removal idiom append(s[:i], s[i+1:]...), which
+// never grows s.
+func isRemovalAppend(p *Prog, in ssa.Instruction) bool {
+	cc, ok := in.(*ssa.Call)
+	if !ok || calleeName(cc) != "builtin append" || len(cc.Call.Args) != 2 {
+		return false
+	}
+	d, okd := p.canon(cc.Call.Args[0]).(*ssa.Slice)
+	s, oks := p.canon(cc.Call.Args[1]).(*ssa.Slice)
+	if !okd || !oks || d.High == nil || d.Low != nil || s.Low == nil || s.High != nil {
+		return false
+	}
+	if !sameExpr(p, d.X, s.X) {
+		return false
+	}
+	b, ok := p.canon(s.Low).(*ssa.BinOp)
+	if !ok || b.Op != token.ADD {
+		return false
+	}
+	k, isK := constInt(b.Y)
+	return isK && k >= 1 && p.canon(b.X) == p.canon(d.High)
 }
